@@ -160,7 +160,7 @@ def launch(name, threads, parallel, spec):
     return p
 
 
-def run_workers(envs, cases, max_parallel, timeout, full=False):
+def run_workers(envs, cases, max_parallel, timeout, full=False, frames=None):
     """returns {env name: worker output or {'error': ...}}"""
     pending = list(envs)
     running = []
@@ -170,7 +170,7 @@ def run_workers(envs, cases, max_parallel, timeout, full=False):
         while pending and len(running) < max_parallel:
             name, threads, parallel, scen, sweep = pending.pop(0)
             mine = cases if (scen or full) else [c for c in cases if c.get("all_envs", True)]
-            spec = {"cases": mine, "scenarios": scen, "set_threads": sweep, "full": full}
+            spec = {"cases": mine, "scenarios": scen, "set_threads": sweep, "full": full, "frames": frames}
             running.append((name, launch(name, threads, parallel, spec), time.time()))
         for item in list(running):
             name, p, ts = item
@@ -327,6 +327,14 @@ def analyse(ctx, cases, outs, envs):
                             ctx.violation("parallel_off_differs" if par_off and kk in ("refinement", "approximate_refinement")
                                           else "kernel_thread_count_differs" if not par_off else "kernel_parallel_off_differs",
                                           f"{cid}: direct call of kernel {kk} differs between {ref_env} and {name}", replay)
+        fa = r.get("frame_audit")
+        if fa:
+            if "error" in fa:
+                ctx.notes.append(f"{cid} in {name}: frame audit run raised {fa['error']}")
+            else:
+                ctx.count("callbacks_audited_against_generated_frames", fa["callbacks_audited"])
+                for b in fa["bad"]:
+                    ctx.mismatch("attribute_frames (Gen/History.v)", {"case": case["id"], "callback": b}, b, "inside may-assign + reads")
         kn = r.get("kernels")
         if kn:
             if "error" in kn:
@@ -345,6 +353,11 @@ def analyse(ctx, cases, outs, envs):
 def run(ctx):
     rng = ctx.rng
     broken_before = bool(ctx.broken)
+    hints = [n.split("DIAGNOSTIC", 1)[1] for n in ctx.notes if "DIAGNOSTIC" in n]
+    if hints:
+        for b in ctx.broken:
+            if b["name"].startswith("coq:"):
+                b["detail"] = f"{b['detail']} | translator hint{' | '.join(hints)}"
     if ctx.replay_case is not None:
         cases = [ctx.replay_case["case"]]
     else:
@@ -355,7 +368,11 @@ def run(ctx):
     if ctx.tier == "thorough":
         envs += [("threads16", "16", None, False, [16, 5]), ("parallel_off_1", "1", "False", False, None)]
     max_par = 3 if ctx.tier == "quick" else 2
-    outs, wall = run_workers(envs, cases, max_par, 600 if ctx.tier == "quick" else 3000, full=ctx.tier == "thorough")
+    import sys
+    gh = sys.modules.get("gen_history")
+    frames = getattr(gh, "LAST", None)      # the datum the translator produced in this run (None if it failed)
+    outs, wall = run_workers(envs, cases, max_par, 600 if ctx.tier == "quick" else 3000, full=ctx.tier == "thorough",
+                             frames=frames)
     ctx.stats["worker_phase_wall_s"] = wall
     ctx.stats["cases"] = len(cases)
     ctx.stats["pipelines"] = sorted(PIPELINES)
